@@ -7,7 +7,7 @@ use serde::{Deserialize, Serialize};
 use serde_json::json;
 use std::time::{Duration, Instant};
 
-pub const RULE: &str = "sessions of 3-40 commands over {isready, ucinewgame, position <generated game>, setoption (Hash 1-4, Move Overhead), go finite (depth 1-5 | movetime 5-60 ms | small clocks), go infinite, stop, quit} against the shipped binary; the driver keeps the session conforming (go/ucinewgame/position/setoption only when no bestmove is outstanding: it waits for the bestmove of a finite go, or sends stop first) and the generator chooses the timing of every command: in the same write as the previous one (stop / isready directly behind go), after 0-30 ms, or immediately after the engine's bestmove; per session a delay vector for the hook-H2 points (before the search thread takes the mutex, after the search, after bestmove is printed, after the latch is set, after ucinewgame resets the latch, before stop waits) of 0 or 15-40 ms each widens the microsecond windows. Model: every isready is answered by readyok within 10 s; every go gets exactly one bestmove (finite: by itself; infinite: after stop), never two; stop and ucinewgame return (the closing isready is answered); after quit the process exits with status 0. A missing answer is a violation only on evidence from /proc: readyok owed and the input thread asleep without CPU use for 3 s; bestmove owed and all threads asleep for 3 s; or bestmove owed and the engine still computing 30 s after a search limited to < 1 s or told to stop. Anything merely slow is inconclusive. Non-trivial = session with a go and at least one of: stop after the search ended by itself, ucinewgame between a finished search and a stop, stop in the same write as go, a command sent inside a widened H2 window; distinct by (commands, timings, delays).";
+pub const RULE: &str = "sessions of 3-40 commands over {isready, ucinewgame, position <generated game>, setoption (Hash 1-4, Move Overhead), go finite (depth 1-5 | movetime 5-60 ms | small clocks), go infinite, stop, quit} against the shipped binary; a third of the sessions open with the first search of the process (or of a new game) on a special root - exactly one legal move, dead material, fortress, forced mate - under each kind of go, followed by stop / isready; the driver keeps the session conforming (go/ucinewgame/position/setoption only when no bestmove is outstanding: it waits for the bestmove of a finite go, or sends stop first) and the generator chooses the timing of every command: in the same write as the previous one (stop / isready directly behind go), after 0-30 ms, or immediately after the engine's bestmove; per session a delay vector for the hook-H2 points (before the search thread takes the mutex, after the search, after bestmove is printed, after the latch is set, after ucinewgame resets the latch, before stop waits) of 0 or 15-40 ms each widens the microsecond windows. Model: every isready is answered by readyok within 10 s; every go gets exactly one bestmove (finite: by itself; infinite: after stop), never two; stop and ucinewgame return (the closing isready is answered); after quit the process exits with status 0. A missing answer is a violation only on evidence from /proc: readyok owed and the input thread asleep without CPU use for 3 s; bestmove owed and all threads asleep for 3 s; or bestmove owed and the engine still computing 30 s after a search limited to < 1 s or told to stop. Anything merely slow is inconclusive. Non-trivial = session with a go and at least one of: stop after the search ended by itself, ucinewgame between a finished search and a stop, stop in the same write as go, a command sent inside a widened H2 window; distinct by (commands, timings, delays).";
 
 #[derive(Serialize, Deserialize, Clone, Debug, PartialEq)]
 pub enum Timing {
@@ -48,6 +48,41 @@ fn from_tape(data: &[u16]) -> (String, Vec<Step>) {
     if t.pick(4) != 0 {
         steps.push(Step { cmd: "setoption name Hash value 1".into(), timing: Timing::AfterMs(0) });
     }
+    // prologue (a third of the sessions): the *first* search of the process / of a new game is made on
+    // a special root - exactly one legal move, dead material, fortress, forced mate - with each kind of
+    // go, and is followed by stop / isready / ucinewgame at generated moments
+    if t.pick(3) == 0 {
+        if t.pick(2) == 0 {
+            steps.push(Step { cmd: "ucinewgame".into(), timing: Timing::AfterMs(0) });
+        }
+        let root = match t.pick(5) {
+            0 | 1 => super::searchlib::forced_theme(&mut t),
+            2 => crate::gen::gen_root(&mut t, crate::gen::Mix::Sparse).map(|g| g.pos),
+            3 => super::searchlib::fortress_theme(&mut t),
+            _ => super::searchlib::mate_theme(&mut t),
+        };
+        if let Some(p) = root.filter(|p| !p.legal_moves().is_empty()) {
+            steps.push(Step { cmd: format!("position fen {}", p.to_fen()), timing: Timing::AfterMs(0) });
+            let go = match t.pick(5) {
+                0 | 1 => format!("go wtime {} btime {} winc 0 binc 0", 100 + t.pick(600), 100 + t.pick(600)),
+                2 => format!("go depth {}", 1 + t.pick(4)),
+                3 => format!("go movetime {}", 5 + t.pick(56)),
+                _ => "go infinite".to_string(),
+            };
+            steps.push(Step { cmd: go, timing: Timing::AfterMs(0) });
+            let after = |t: &mut Tape| match t.pick(3) {
+                0 => Timing::Batch,
+                1 => Timing::AfterBestmove,
+                _ => Timing::AfterMs(t.pick(20) as u32),
+            };
+            match t.pick(4) {
+                0 | 1 => steps.push(Step { cmd: "stop".into(), timing: after(&mut t) }),
+                2 => steps.push(Step { cmd: "isready".into(), timing: after(&mut t) }),
+                _ => {}
+            }
+            steps.push(Step { cmd: "isready".into(), timing: Timing::AfterMs(0) });
+        }
+    }
     for _ in 0..n {
         let timing = |t: &mut Tape| match t.pick(6) {
             0 | 1 => Timing::AfterMs(0),
@@ -83,7 +118,16 @@ fn from_tape(data: &[u16]) -> (String, Vec<Step>) {
             }
         };
         let is_quit = step.cmd == "quit";
+        let was_position = step.cmd.starts_with("position");
         steps.push(step);
+        if was_position && t.pick(2) == 0 {
+            // search the new position at once, often on the clock
+            let cmd = match t.pick(3) {
+                0 => format!("go depth {}", 1 + t.pick(4)),
+                _ => format!("go wtime {} btime {} winc 0 binc 0", 100 + t.pick(600), 100 + t.pick(600)),
+            };
+            steps.push(Step { cmd, timing: Timing::AfterMs(0) });
+        }
         if is_quit {
             break;
         }
